@@ -594,7 +594,15 @@ func classify(d XDialect) []string {
 		set["include-deep-or-diamond"] = true
 	}
 	for _, f := range d.Files {
+		for _, e := range f.Enums {
+			if goToolWords[e.Name[strings.LastIndex(e.Name, "_")+1:]] {
+				set["enum-name-ending-in-a-word-the-go-tool-interprets"] = true
+			}
+		}
 		for _, m := range f.Msgs {
+			if goToolWords[m.Name[strings.LastIndex(m.Name, "_")+1:]] {
+				set["message-name-ending-in-a-word-the-go-tool-interprets"] = true
+			}
 			hasExt, markupComment := false, false
 			for _, fl := range m.Fields {
 				if strings.Contains(fl.CommentBefore, "<field") || strings.Contains(fl.CommentBefore, "<extensions") {
@@ -707,7 +715,7 @@ func snakeInvertible(name string) bool {
 
 func TestC18Generator(t *testing.T) {
 	rec := evid.New(t, "C18", "XML documents printed from a random dialect model (messages with ids up to 2^24-1, scalar/array/char[n]/scalar char/uint8_t_mavlink_version/enum-typed fields, extension marker at every position, non-snake-case field names, ordinary and bitmask enums with decimal/0x/0b/a**b values, include graphs with diamonds and enums extended by the includer, <version> present/absent) are converted by the real conversion.Convert, compiled with go build, and a probe linked against the generated packages dumps ids, CRC_EXTRA, sizes, per-field one-hot encodings, constants and enum text behaviour; all compared with expectations derived from the model; generating twice must give identical trees (the first conversion runs with the local time zone at UTC-12, the second at UTC+14 - another calendar day at any hour - and the command-line tool at UTC+14 as well); definitions with an unknown field type, a malformed enum value or message name must be refused; non-trivial = document with an extension block, an include, a mavname-requiring field or a non-decimal enum value; distinct by hash of the XML")
-	rec.Require("extension", "include", "mavname-field", "non-decimal-enum-value", "leading-zero-decimal", "negative-refused", "bitmask-enum", "enum-field", "scalar-char", "enum-extended-by-includer", "cli-binary-compared", "ordinary-enum-with-power-of-two-values", "bitmask-enum-with-multi-bit-entry", "enum-field-of-a-rarely-supported-integer-type", "array-of-128-or-more-elements", "comment-holding-markup-before-the-extensions-marker", "enum-announced-without-entries-by-an-included-file", "neg-duplicate-message-id", "neg-message-too-big")
+	rec.Require("extension", "include", "mavname-field", "non-decimal-enum-value", "leading-zero-decimal", "negative-refused", "bitmask-enum", "enum-field", "scalar-char", "enum-extended-by-includer", "cli-binary-compared", "ordinary-enum-with-power-of-two-values", "bitmask-enum-with-multi-bit-entry", "enum-field-of-a-rarely-supported-integer-type", "array-of-128-or-more-elements", "comment-holding-markup-before-the-extensions-marker", "enum-announced-without-entries-by-an-included-file", "neg-duplicate-message-id", "neg-message-too-big", "message-name-ending-in-a-word-the-go-tool-interprets", "enum-name-ending-in-a-word-the-go-tool-interprets")
 	root := scratch(t)
 	defer os.RemoveAll(root)
 	// the command-line tool built from the same tree: its output must equal the in-process conversion
